@@ -80,3 +80,51 @@ def translator_cache_rules(ck, rid):
         okv = okv and isinstance(v, ast.Call) and len(v.args) == 1 and norm(res.expand_node(v.args[0])) == param
     ck.ob(rid, "Translator.from_expr:stores-the-handler-result", bool(stores) and okv, m.where(stores[0] if stores else fn),
           "the value stored in the memo table is not the handler's result for the expression being translated")
+    # ---------------------------------------------------------------- the memo container keeps its own tables in step
+    _bounded_dict_rules(ck, rid, m, meths)
+
+
+def _bounded_dict_rules(ck, rid, m, meths):
+    """If the memo table is a BoundedDict (miasm/core/utils.py): its value table and its use counter must have the same keys on every
+    path of every method; otherwise a later hit (`key in cache` is decided on one table, the read updates the other) raises KeyError
+    and no source is produced for a supported expression."""
+    from sa import mirror
+    from sa.repo import AnalysisError
+    init = meths["__init__"]
+    uses = [n for n in walk_body(init) if isinstance(n, ast.Call) and (dotted(n.func) or "").split(".")[-1] == "BoundedDict"]
+    if not uses:
+        return
+    U = "miasm/core/utils.py"
+    um = ck.repo.mod(U)
+    bm = um.methods("BoundedDict")
+    ck.need("__init__" in bm and "__setitem__" in bm and "__getitem__" in bm, "BoundedDict.__init__ / __setitem__ / __getitem__ not found")
+    # the pair: the table built in __init__ as a key-copy of the other
+    pair = None
+    for n in walk_body(bm["__init__"]):
+        if isinstance(n, ast.Assign) and len(n.targets) == 1 and isinstance(n.targets[0], ast.Attribute) and norm(n.targets[0].value) == "self":
+            v = n.value
+            src = None
+            if isinstance(v, ast.DictComp) and len(v.generators) == 1 and isinstance(v.generators[0].iter, ast.Attribute) and norm(v.generators[0].iter.value) == "self":
+                src = v.generators[0].iter.attr
+            if isinstance(v, ast.Call) and norm(v.func) == "dict.fromkeys" and v.args and isinstance(v.args[0], ast.Attribute) and norm(v.args[0].value) == "self":
+                src = v.args[0].attr
+            if src:
+                pair = (src, n.targets[0].attr)
+    if pair is None:
+        # a container with one table has nothing to keep in step
+        one = [n for n in walk_body(bm["__getitem__"]) if isinstance(n, ast.AugAssign)]
+        ck.need(not one, "BoundedDict: __getitem__ updates a second table but __init__ does not build it from the first")
+        return
+    try:
+        issues, stats = mirror.check(bm, pair[0], pair[1])
+    except mirror.NotUnderstood as e:
+        raise AnalysisError("BoundedDict: %s" % e)
+    ck.need(stats["methods"] >= 3 and stats["stores"] >= 4, "BoundedDict: fewer methods / stores on self.%s, self.%s than reviewed (%s)" % (pair[0], pair[1], stats))
+    by = {}
+    for mn, node, text in issues:
+        by.setdefault(mn, []).append((node, text))
+    for mn in sorted(set(list(by) + [k for k in bm if any(norm(x) in ("self." + pair[0], "self." + pair[1]) for x in ast.walk(bm[k]) if isinstance(x, ast.Attribute))])):
+        bad = by.get(mn, [])
+        ck.ob(rid, "BoundedDict.%s:tables-in-step" % mn, not bad, um.where(bad[0][0] if bad else bm[mn]),
+              "BoundedDict.%s: %s: `key in cache` then succeeds while the read raises KeyError (or the reverse), so a supported expression "
+              "gets no translation" % (mn, "; ".join(b[1] for b in bad)))
